@@ -51,6 +51,8 @@ impl DodecahedronProjection {
 
     /// Projects spherical coordinates to face coordinates using dodecahedron projection
     pub fn forward(&mut self, spherical: Spherical, origin_id: OriginId) -> Result<Face, String> {
+        #[cfg(feature = "verif")]
+        let _verif_scope = crate::verif::Scope::new(self as *const _ as usize);
         let origins = get_origins();
         if (origin_id as usize) >= origins.len() {
             return Err("Invalid origin ID".to_string());
@@ -84,6 +86,8 @@ impl DodecahedronProjection {
 
     /// Unprojects face coordinates to spherical coordinates using dodecahedron projection
     pub fn inverse(&mut self, face: Face, origin_id: OriginId) -> Result<Spherical, String> {
+        #[cfg(feature = "verif")]
+        let _verif_scope = crate::verif::Scope::new(self as *const _ as usize);
         let polar = to_polar(face);
         let face_triangle_index = self.get_face_triangle_index(polar)?;
 
@@ -135,6 +139,8 @@ impl DodecahedronProjection {
             return Err("Face triangle index out of bounds".to_string());
         }
 
+        #[cfg(feature = "verif")]
+        crate::verif::point(crate::verif::Kind::MemoRead, self as *const _ as usize, index);
         if let Some(cached) = &self.face_triangles[index] {
             return Ok(*cached);
         }
@@ -145,6 +151,8 @@ impl DodecahedronProjection {
             self.get_base_face_triangle(face_triangle_index)?
         };
 
+        #[cfg(feature = "verif")]
+        crate::verif::point(crate::verif::Kind::MemoStore, self as *const _ as usize, index);
         self.face_triangles[index] = Some(face_triangle);
         Ok(face_triangle)
     }
@@ -219,12 +227,16 @@ impl DodecahedronProjection {
             return Err("Spherical triangle index out of bounds".to_string());
         }
 
+        #[cfg(feature = "verif")]
+        crate::verif::point(crate::verif::Kind::MemoRead, self as *const _ as usize, 1000 + index);
         if let Some(cached) = &self.spherical_triangles[index] {
             return Ok(*cached);
         }
 
         let spherical_triangle =
             self.compute_spherical_triangle(face_triangle_index, origin_id, reflected)?;
+        #[cfg(feature = "verif")]
+        crate::verif::point(crate::verif::Kind::MemoStore, self as *const _ as usize, 1000 + index);
         self.spherical_triangles[index] = Some(spherical_triangle);
         Ok(spherical_triangle)
     }
@@ -272,6 +284,49 @@ impl DodecahedronProjection {
         // Azimuthal angle from triangle bisector
         let beta = s_offset * TWO_PI_OVER_5.get();
         Radians::new_unchecked(beta)
+    }
+}
+
+#[cfg(feature = "verif")]
+impl DodecahedronProjection {
+    /// Read-only bit image of the memo tables (verification only)
+    pub fn verif_memo_bits(&self) -> (Vec<Option<[u64; 6]>>, Vec<Option<[u64; 9]>>) {
+        let f = self
+            .face_triangles
+            .iter()
+            .map(|o| {
+                o.map(|t| {
+                    [
+                        t.a.x().to_bits(),
+                        t.a.y().to_bits(),
+                        t.b.x().to_bits(),
+                        t.b.y().to_bits(),
+                        t.c.x().to_bits(),
+                        t.c.y().to_bits(),
+                    ]
+                })
+            })
+            .collect();
+        let s = self
+            .spherical_triangles
+            .iter()
+            .map(|o| {
+                o.map(|t| {
+                    [
+                        t.a.x().to_bits(),
+                        t.a.y().to_bits(),
+                        t.a.z().to_bits(),
+                        t.b.x().to_bits(),
+                        t.b.y().to_bits(),
+                        t.b.z().to_bits(),
+                        t.c.x().to_bits(),
+                        t.c.y().to_bits(),
+                        t.c.z().to_bits(),
+                    ]
+                })
+            })
+            .collect();
+        (f, s)
     }
 }
 
